@@ -129,12 +129,13 @@ def run(ctx, out, prop):
     else:
         big = (1, 2, 0, 20) if q else (2, 2, 0, 24)
         small = (1, 1, 0, 12) if q else (1, 2, 0, 16)
-    r = tlc.model_check(ctx.sub("mc"), "Net", net_cfg(*big, dump=False), timeout=3000, heap="12g")
+    # one worker: the VIEW hides the depth counter, so only a strict breadth-first search explores the same set every run
+    r = tlc.model_check(ctx.sub("mc"), "Net", net_cfg(*big, dump=False), timeout=6000, heap="12g", workers=1)
     out.add_tlc(r)
     ctx.log("design model Net (sends<=%d breaks<=%d restarts<=%d depth %d): %d distinct states, %d transitions; Safe, Quiescence, T1, T2, T4 hold"
             % (big + (r["distinct"], r["generated"])))
     if rest:   # vacuity self-check: with the stored inbound counter lagging, TLC must find the T1 violation
-        r0 = tlc.model_check(ctx.sub("mc0"), "Net", net_cfg(1, 1, 1, 20, dump=False, lag="TRUE"), timeout=900, expect_violation=True)
+        r0 = tlc.model_check(ctx.sub("mc0"), "Net", net_cfg(1, 1, 1, 20, dump=False, lag="TRUE"), timeout=900, expect_violation=True, workers=1)
         if not r0["violated"]:
             raise tlc.MachineryError("Net with KF_StoredInLag should violate T1 (vacuity self-check)")
     d = tlc.dump_edges(ctx.sub("dump"), "Net", net_cfg(*small, dump=True, props=False), marker="STATE", timeout=3000)
